@@ -87,6 +87,20 @@ ied_check_small(const uint8_t r[32], const uint8_t h[32], const uint8_t pk[32], 
     return __CPROVER_uninterpreted_ge_small(__CPROVER_uninterpreted_ge_sub(R, P)) & 1;
 }
 
+int  ied_on_curve_enc(const uint8_t s[32]) { return __CPROVER_uninterpreted_ge_on_curve(__CPROVER_uninterpreted_ge_dec(p256(s))) & 1; }
+int  ied_main_subgroup_enc(const uint8_t s[32]) { return __CPROVER_uninterpreted_ge_main_subgroup(__CPROVER_uninterpreted_ge_dec(p256(s))) & 1; }
+void ied_scalarmult_bytes(uint8_t out[32], const uint8_t t[32], const uint8_t p_enc[32]) { u256(out, __CPROVER_uninterpreted_ge_enc(__CPROVER_uninterpreted_ge_mult(p256(t), __CPROVER_uninterpreted_ge_dec(p256(p_enc))))); }
+void
+ied_addsub_bytes(uint8_t out[32], const uint8_t p_enc[32], const uint8_t q_enc[32], int sub)
+{
+    e256_t P = __CPROVER_uninterpreted_ge_dec(p256(p_enc)), Q = __CPROVER_uninterpreted_ge_dec(p256(q_enc));
+    u256(out, __CPROVER_uninterpreted_ge_enc(sub ? __CPROVER_uninterpreted_ge_sub(P, Q) : __CPROVER_uninterpreted_ge_add(P, Q)));
+}
+void ied_sc_mul(uint8_t s[32], const uint8_t a[32], const uint8_t b[32]) { u256(s, __CPROVER_uninterpreted_sc_mul(p256(a), p256(b))); }
+void ied_sc_invert(uint8_t s[32], const uint8_t a[32]) { u256(s, __CPROVER_uninterpreted_sc_invert(p256(a))); }
+void ied_from_uniform(uint8_t s[32], const uint8_t r[32]) { u256(s, __CPROVER_uninterpreted_from_uniform(p256(r))); }
+void ied_from_hash(uint8_t s[32], const uint8_t h[64]) { u256(s, __CPROVER_uninterpreted_from_hash(p512(h))); }
+
 /* ---- the ed25519_ref10 API as seen by the drivers ---- */
 void
 sc25519_reduce(unsigned char s[64])
@@ -142,6 +156,21 @@ ied_small_order_enc(const uint8_t s[32], int negated)
     if (negated) ge25519_frombytes_negate_vartime(&P, s); else ge25519_frombytes(&P, s);
     return ge25519_has_small_order(&P);
 }
+int  ied_on_curve_enc(const uint8_t s[32]) { ge25519_p3 P; ge25519_frombytes(&P, s); return ge25519_is_on_curve(&P); }
+int  ied_main_subgroup_enc(const uint8_t s[32]) { ge25519_p3 P; ge25519_frombytes(&P, s); return ge25519_is_on_main_subgroup(&P); }
+void ied_scalarmult_bytes(uint8_t out[32], const uint8_t t[32], const uint8_t p_enc[32]) { ge25519_p3 P, Q; ge25519_frombytes(&P, p_enc); ge25519_scalarmult(&Q, t, &P); ge25519_p3_tobytes(out, &Q); }
+void
+ied_addsub_bytes(uint8_t out[32], const uint8_t p_enc[32], const uint8_t q_enc[32], int sub)
+{
+    ge25519_p3 P, Q, R;
+    ge25519_frombytes(&P, p_enc); ge25519_frombytes(&Q, q_enc);
+    if (sub) ge25519_p3_sub(&R, &P, &Q); else ge25519_p3_add(&R, &P, &Q);
+    ge25519_p3_tobytes(out, &R);
+}
+void ied_sc_mul(uint8_t s[32], const uint8_t a[32], const uint8_t b[32]) { sc25519_mul(s, a, b); }
+void ied_sc_invert(uint8_t s[32], const uint8_t a[32]) { sc25519_invert(s, a); }
+void ied_from_uniform(uint8_t s[32], const uint8_t r[32]) { ge25519_from_uniform(s, r); }
+void ied_from_hash(uint8_t s[32], const uint8_t h[64]) { ge25519_from_hash(s, h); }
 int
 ied_check_small(const uint8_t r[32], const uint8_t h[32], const uint8_t pk[32], const uint8_t S[32])
 {
